@@ -101,6 +101,7 @@ Ex0 == [pc |-> [t \in Thr |-> 1],
         cnt |-> [a \in Arcs |-> 1],                        \* strong count: main creates the Arc (and clones it for the others)
         tok |-> [t \in Thr |-> FALSE],                      \* park token
         parked |-> [t \in Thr |-> FALSE],
+        ctl |-> <<>>,                                        \* exploration-control calls made since the last scheduling point
         regs |-> [t \in Thr |-> <<>>],
         sched |-> <<>>]                                      \* threads chosen so far (history)
 
@@ -117,6 +118,9 @@ RunToBranch(e, a) ==
        IF ins.op = "unlock" THEN RunToBranch([Release(e, a, ins.o) EXCEPT !.pc[a] = @ + 1], a)
        ELSE IF ins.op = "tunlock"
             THEN RunToBranch([(IF e.holder[ins.o] = a THEN Release(e, a, ins.o) ELSE e) EXCEPT !.pc[a] = @ + 1], a)
+       \* loom::stop_exploring / explore / skip_branch act on the path at once; no scheduling point
+       ELSE IF ins.op \in {"stopx", "explore", "skipb"}
+            THEN RunToBranch([e EXCEPT !.ctl = Append(@, ins.op), !.pc[a] = @ + 1], a)
        \* thread::spawn is no scheduling point; Execution::new_thread: the child inherits the spawner's DPOR clock
        ELSE IF ins.op = "spawnall"
             THEN RunToBranch([e EXCEPT !.pc[a] = @ + 1,
@@ -207,8 +211,17 @@ SeedOf(e, init) ==
                  ELSE "Skip"]
 
 \* result: [p, e, next]
-Schedule(p0, e) ==
-  LET p1   == Races(p0, e, 1)
+RECURSIVE ApplyCtl(_, _)
+ApplyCtl(p, c) ==
+  IF c = <<>> THEN p
+  ELSE ApplyCtl(CASE Head(c) = "stopx"   -> Critical(p)
+                  [] Head(c) = "explore" -> ExploreState(p)
+                  [] OTHER               -> SkipBranch(p), Tail(c))
+
+Schedule(pin, ein) ==
+  LET p0   == ApplyCtl(pin, ein.ctl)
+      e    == [ein EXCEPT !.ctl = <<>>]
+      p1   == Races(p0, e, 1)
       pid  == p1.pos + 1                       \* the entry this call consumes (rt: path.pos() before branch_thread)
       b    == BranchThread(p1, SeedOf(e, Initial(e)))
       nx   == b.ret
@@ -249,40 +262,75 @@ Perform(e, t) ==
 
 (* --------------------------------------------------- reference semantics *)
 \* all outcomes of the program under full interleaving (sequentially consistent memory)
+CtlOps == {"stopx", "explore", "skipb"}
+HasCtl == \E i \in AllOps : i.op \in CtlOps
+\* operations that are no scheduling points in loom.  In a program that uses exploration controls, what "a decision
+\* inside the region" is can only be said in terms of loom's scheduling points, so there (and only there) the
+\* reference executes them together with the step before them, as loom does; without controls they are steps of
+\* their own (the semantics of the primitives: another thread may run between the last access and the unlock)
+NbOps == IF HasCtl THEN {"unlock", "tunlock", "unpark"} ELSE {}
+
+\* one operation of thread t in state c (the reference semantics of the primitives)
+ExecRef(c, t) ==
+  LET i == Code(t)[c.pc[t]]  s1 == [c EXCEPT !.pc[t] = @ + 1] IN
+  CASE i.op = "ld"      -> [s1 EXCEPT !.regs[t] = Append(@, c.val[i.o])]
+    [] i.op = "st"      -> [s1 EXCEPT !.val[i.o] = StVal(t, c.pc[t])]
+    [] i.op = "lock"    -> [s1 EXCEPT !.holder[i.o] = t]
+    [] i.op = "unlock"  -> [s1 EXCEPT !.holder[i.o] = 0]
+    [] i.op = "trylock" -> IF c.holder[i.o] # 0 THEN [s1 EXCEPT !.regs[t] = Append(@, 0)]
+                           ELSE [s1 EXCEPT !.holder[i.o] = t, !.regs[t] = Append(@, 1)]
+    [] i.op = "tunlock" -> IF c.holder[i.o] = t THEN [s1 EXCEPT !.holder[i.o] = 0] ELSE s1
+    [] i.op = "send"    -> IF c.closed[i.o] THEN s1 ELSE [s1 EXCEPT !.chq[i.o] = Append(@, StVal(t, c.pc[t]))]
+    [] i.op = "recv"    -> [s1 EXCEPT !.regs[t] = Append(@, Head(c.chq[i.o])), !.chq[i.o] = Tail(@)]
+    [] i.op = "tryrecv" -> IF c.chq[i.o] = <<>> THEN [s1 EXCEPT !.regs[t] = Append(@, 0)]
+                           ELSE [s1 EXCEPT !.regs[t] = Append(@, Head(c.chq[i.o])), !.chq[i.o] = Tail(@)]
+    [] i.op = "droprx"  -> [s1 EXCEPT !.chq[i.o] = <<>>, !.closed[i.o] = TRUE]
+    [] i.op = "aclone"  -> [s1 EXCEPT !.cnt[i.o] = @ + 1]
+    [] i.op = "adrop"   -> [s1 EXCEPT !.cnt[i.o] = @ - 1]
+    [] i.op = "acount"  -> [s1 EXCEPT !.regs[t] = Append(@, c.cnt[i.o])]
+    [] i.op = "park"    -> [s1 EXCEPT !.tok[t] = FALSE]
+    [] i.op = "unpark"  -> [s1 EXCEPT !.tok[i.o] = TRUE]
+    [] OTHER            -> s1
+
+\* exploration-control calls are no operations of the program: a thread makes them on its way to its next
+\* operation (loom: no scheduling point), i.e. together with the step before them - or, at the very start of a
+\* thread, together with its first step
+RECURSIVE RunCtl(_, _)
+RunCtl(s, t) ==
+  IF s.pc[t] > Len(Code(t)) THEN s
+  ELSE LET i == Code(t)[s.pc[t]] IN
+       IF i.op \in CtlOps
+       THEN RunCtl([s EXCEPT !.pc[t] = @ + 1,
+                             !.frozen = IF i.op \in {"stopx", "skipb"} THEN TRUE
+                                        ELSE IF ~s.skipped THEN FALSE ELSE s.frozen,
+                             !.skipped = s.skipped \/ i.op = "skipb"], t)
+       ELSE IF i.op \in NbOps THEN RunCtl(ExecRef(s, t), t)
+       ELSE s
+
 RECURSIVE RefFrom(_)
 RefFrom(s) ==
   LET Spawned == ~HasSpawn \/ (\E i \in 1..(s.pc[1] - 1) : Code(1)[i].op = "spawnall")
       Live == {t \in Thr : s.pc[t] <= Len(Code(t))}
-      En == {t \in Live : LET i == Code(t)[s.pc[t]] IN
+      Cur(t) == RunCtl(s, t)                            \* after the leading control calls of t
+      En == {t \in Live : LET c == Cur(t) IN
                              /\ (t = 1 \/ Spawned)
-                             /\ i.op = "lock" => s.holder[i.o] = 0
-                             /\ i.op = "recv" => s.chq[i.o] # <<>>
-                             /\ i.op = "park" => s.tok[t]}
-      StepOf(t) ==
-        LET i == Code(t)[s.pc[t]]  s1 == [s EXCEPT !.pc[t] = @ + 1] IN
-        CASE i.op = "ld"      -> [s1 EXCEPT !.regs[t] = Append(@, s.val[i.o])]
-          [] i.op = "st"      -> [s1 EXCEPT !.val[i.o] = StVal(t, s.pc[t])]
-          [] i.op = "lock"    -> [s1 EXCEPT !.holder[i.o] = t]
-          [] i.op = "unlock"  -> [s1 EXCEPT !.holder[i.o] = 0]
-          [] i.op = "trylock" -> IF s.holder[i.o] # 0 THEN [s1 EXCEPT !.regs[t] = Append(@, 0)]
-                                 ELSE [s1 EXCEPT !.holder[i.o] = t, !.regs[t] = Append(@, 1)]
-          [] i.op = "tunlock" -> IF s.holder[i.o] = t THEN [s1 EXCEPT !.holder[i.o] = 0] ELSE s1
-          [] i.op = "send"    -> IF s.closed[i.o] THEN s1 ELSE [s1 EXCEPT !.chq[i.o] = Append(@, StVal(t, s.pc[t]))]
-          [] i.op = "recv"    -> [s1 EXCEPT !.regs[t] = Append(@, Head(s.chq[i.o])), !.chq[i.o] = Tail(@)]
-          [] i.op = "tryrecv" -> IF s.chq[i.o] = <<>> THEN [s1 EXCEPT !.regs[t] = Append(@, 0)]
-                                 ELSE [s1 EXCEPT !.regs[t] = Append(@, Head(s.chq[i.o])), !.chq[i.o] = Tail(@)]
-          [] i.op = "droprx"  -> [s1 EXCEPT !.chq[i.o] = <<>>, !.closed[i.o] = TRUE]
-          [] i.op = "aclone"  -> [s1 EXCEPT !.cnt[i.o] = @ + 1]
-          [] i.op = "adrop"   -> [s1 EXCEPT !.cnt[i.o] = @ - 1]
-          [] i.op = "acount"  -> [s1 EXCEPT !.regs[t] = Append(@, s.cnt[i.o])]
-          [] i.op = "park"    -> [s1 EXCEPT !.tok[t] = FALSE]
-          [] i.op = "unpark"  -> [s1 EXCEPT !.tok[i.o] = TRUE]
-          [] OTHER            -> s1
+                             /\ c.pc[t] <= Len(Code(t)) =>
+                                  LET i == Code(t)[c.pc[t]] IN
+                                  /\ i.op = "lock" => s.holder[i.o] = 0
+                                  /\ i.op = "recv" => s.chq[i.o] # <<>>
+                                  /\ i.op = "park" => s.tok[t]}
+      StepOf(t) == LET c == Cur(t) IN
+                   [(IF c.pc[t] > Len(Code(t)) THEN c ELSE RunCtl(ExecRef(c, t), t)) EXCEPT !.last = t]
+      \* between stop_exploring and explore (and after skip_branch, to the end) every decision is the default one:
+      \* the thread that ran last goes on while it can, else the runnable thread with the lowest index;
+      \* decisions outside such a region are all taken
+      Pick == IF s.frozen THEN (IF s.last \in En THEN {s.last} ELSE {SetMin(En)}) ELSE En
   IN IF Live = {} THEN {[end |-> "ok", regs |-> s.regs]}
      ELSE IF En = {} THEN {[end |-> "deadlock", regs |-> <<>>]}
-     ELSE UNION {RefFrom(StepOf(t)) : t \in En}
+     ELSE UNION {RefFrom(StepOf(t)) : t \in Pick}
 RefOutcomes == RefFrom([pc |-> Ex0.pc, val |-> Ex0.val, holder |-> Ex0.holder, regs |-> Ex0.regs,
-                        chq |-> Ex0.chq, closed |-> Ex0.closed, cnt |-> Ex0.cnt, tok |-> Ex0.tok])
+                        chq |-> Ex0.chq, closed |-> Ex0.closed, cnt |-> Ex0.cnt, tok |-> Ex0.tok,
+                        last |-> 1, frozen |-> FALSE, skipped |-> FALSE])
 NOps == LET RECURSIVE Sum(_) Sum(t) == IF t > N THEN 0 ELSE Len(Code(t)) + Sum(t + 1) IN Sum(1)
 
 (* ---------------------------------------------------------- the machine *)
